@@ -70,3 +70,83 @@ func TestVerif_C13_MultiTCPMuxAllOrNone(t *testing.T) {
 		}
 	})
 }
+
+// TestVerif_C15_MultiTCPMuxRemoveAndClose: a multi TCP mux owns what its muxes own. RemoveConnByUfrag must close the
+// ufrag's packet connection on every mux (not only on the first one, which GetConnByUfrag uses), leave other ufrags
+// alone, and Close must stop every listener and close every connection. A drawn subset of ufrags is taken through
+// GetAllConns / GetConnByUfrag, a drawn one removed, then the multi mux is closed.
+func TestVerif_C15_MultiTCPMuxRemoveAndClose(t *testing.T) {
+	st := vfNewStats(t)
+	lf := logging.NewDefaultLoggerFactory()
+	lf.DefaultLogLevel = logging.LogLevelDisabled
+	rapid.Check(t, func(rt *rapid.T) {
+		n := rapid.IntRange(1, 4).Draw(rt, "muxes")
+		nu := rapid.IntRange(1, 3).Draw(rt, "ufrags")
+		localIP := net.IPv4(10, 0, 0, 1)
+		var muxes []*TCPMuxDefault
+		var lns []*c15Listener
+		var ifs []TCPMux
+		for i := 0; i < n; i++ {
+			ln := newC15Listener()
+			m := NewTCPMuxDefault(TCPMuxParams{Listener: ln, Logger: lf.NewLogger("verif"), ReadBufferSize: 8})
+			muxes, lns, ifs = append(muxes, m), append(lns, ln), append(ifs, m)
+			defer m.Close() //nolint:errcheck
+		}
+		multi := NewMultiTCPMuxDefault(ifs...)
+		ufrag := func(i int) string { return fmt.Sprintf("ufragR%d", i) }
+		viaAll := make([]bool, nu)
+		for u := 0; u < nu; u++ {
+			viaAll[u] = rapid.Bool().Draw(rt, fmt.Sprintf("viaGetAllConns%d", u))
+			if viaAll[u] {
+				hs, err := multi.GetAllConns(ufrag(u), false, localIP)
+				if err != nil || len(hs) != n {
+					st.Fail(rt, "C15/multi/get-all-conns", "GetAllConns(%s) on %d open muxes = %d handles, %v", ufrag(u), n, len(hs), err)
+				}
+			} else if _, err := multi.GetConnByUfrag(ufrag(u), false, localIP); err != nil {
+				st.Fail(rt, "C15/multi/get-conn", "GetConnByUfrag(%s) = %v", ufrag(u), err)
+			}
+		}
+		open := func(i, u int) bool {
+			muxes[i].mu.Lock()
+			defer muxes[i].mu.Unlock()
+			c, ok := muxes[i].getConn(ufrag(u), false, localIP)
+
+			return ok && !c.isClosed()
+		}
+		before := map[[2]int]bool{}
+		for i := range muxes {
+			for u := 0; u < nu; u++ {
+				before[[2]int{i, u}] = open(i, u)
+			}
+		}
+		rm := rapid.IntRange(0, nu-1).Draw(rt, "removed")
+		multi.RemoveConnByUfrag(ufrag(rm))
+		for i := range muxes {
+			for u := 0; u < nu; u++ {
+				switch {
+				case u == rm && open(i, u):
+					st.Fail(rt, "C15/multi/remove-left-a-connection", "after RemoveConnByUfrag(%s) on the multi mux, mux %d of %d still has an open connection for it (taken through GetAllConns: %v)", ufrag(u), i, n, viaAll[u])
+				case u != rm && before[[2]int{i, u}] && !open(i, u):
+					st.Fail(rt, "C15/multi/remove-closed-a-bystander", "RemoveConnByUfrag(%s) closed the connection of %s on mux %d", ufrag(rm), ufrag(u), i)
+				}
+			}
+		}
+		if err := multi.Close(); err != nil {
+			st.Fail(rt, "C15/multi/close-error", "Close of the multi mux: %v", err)
+		}
+		for i := range muxes {
+			if !lns[i].isClosed() {
+				st.Fail(rt, "C15/multi/close-left-a-listener", "after Close of the multi mux the listener of mux %d of %d is still open", i, n)
+			}
+			for u := 0; u < nu; u++ {
+				if open(i, u) {
+					st.Fail(rt, "C15/multi/close-left-a-connection", "after Close of the multi mux, mux %d still has an open connection for %s", i, ufrag(u))
+				}
+			}
+		}
+		st.Record(vfHash(n, nu, rm, fmt.Sprint(viaAll)), n >= 2, fmt.Sprintf("muxes:%d", n))
+		if st.WantSample() {
+			st.Sample(func() string { return fmt.Sprintf("%d muxes, %d ufrags (via GetAllConns %v), removed %s", n, nu, viaAll, ufrag(rm)) })
+		}
+	})
+}
